@@ -36,6 +36,7 @@ THEOREMS = ["JanetModel.Props.C09." + t for t in (
     "env_slot_test_is_bit", "env_walk_visits_set_bits",                                  # closure env written from a live frame
     "roundtrip_code", "roundtrip_funcdef", "roundtrip_funcenv", "code_ids_agree", "roundtrip_code_top",   # functions, funcdefs, closure envs
     "code_model_extends_data_model",                                                     # Code.lean = Graph.lean on data heaps (marshal side)
+    "presentation_exists", "presentation_exists_top", "presentation_unique", "presentation_roundtrip",   # every graph has exactly one presentation in reference-number order
     "asm_disasm_def", "asm_slotcount_covers", "asm_slotcount_le", "asm_slotcount_eq", "asm_disasm_def_tight",   # asm . disasm at funcdef level: slot count, janet_verify
     "asm_disasm_instr", "asm_disasm_bytecode",                                           # asm . disasm on instruction words / bytecode arrays
     "abstract_hook_roundtrip", "int64_hooks_paired", "int64_box_roundtrip", "channel_hooks_paired", "channel_roundtrip", "peg_hooks_paired",  # abstract hook protocol
@@ -642,6 +643,32 @@ def run(ctx):
                 if u != exp:
                     gstats["unmarshal_diffs"] += 1
                     gdiffs.append({"what": "unmarshal of the implementation's bytes", "gen_seed": seed, "index": int(idx), "expected": exp, "model": u})
+        # (D2b) the presentation in reference-number order exists and is canonical (Marsh/Present.lean): the same graph with its heap
+        # in a random address order goes through the seen-table marshaller of the model; it must write janet's bytes and compute
+        # the description janet's `describe` computed
+        if exe:
+            plines, pexp = [], []
+            for seed, idx, verdict, reg, hexb, desc in graph_cases:
+                if hexb == "-" or desc == "?":
+                    continue
+                root, objs = parse_desc(desc)
+                k = len(objs)
+                perm = list(range(k))
+                ctx.rng.shuffle(perm)
+                ren = lambda t: re.sub(r"^r(\d+)$", lambda m: "r%d" % perm[int(m.group(1))], t)
+                addr = [None] * k
+                for i, o in enumerate(objs):
+                    addr[perm[i]] = " ".join(ren(t) for t in o)
+                plines.append("present " + " | ".join([ren(root)] + addr))
+                pexp.append(hexb + " " + desc)
+            pout = ctx.model(plines, exe=exe) if plines else []
+            gstats["presentations_from_permuted_heaps"] = len(plines)
+            gstats["presentation_diffs"] = 0
+            for l, e, o in zip(plines, pexp, pout):
+                if o.strip() != e.strip():
+                    gstats["presentation_diffs"] += 1
+                    if gstats["presentation_diffs"] == 1:
+                        gdiffs.append({"what": "presentation of a permuted heap", "line": l[:400], "expected": e[:400], "model": o[:400]})
         if gdiffs:
             broken.append("correspondence model/impl on data graphs: %d marshal / %d unmarshal differences, first %s" %
                           (gstats["marshal_diffs"], gstats["unmarshal_diffs"], json.dumps(gdiffs[0])[:600]))
